@@ -313,6 +313,33 @@ def h_error_after_graceful_close(client):
     return h
 
 
+def h_goaway_after_refused_push():
+    """pushes the client refused (their parent was reset) with lower, equal or higher promised
+    ids than the ones seen before, then a connection error: the GOAWAY still names the highest
+    stream id the peer has used"""
+    def h():
+        with h2h.native():
+            ctx = ops.Ctx(True)
+            for o in (('send_headers', 1, 'req', False), ('send_headers', 3, 'req', False),
+                      ('PP', 3, 4), ('reset', 1)):
+                ops.run_op(ctx, o)
+            ctx.me.data_to_send()
+        for i in range(2):
+            pid = F.sym_choice('promised%d' % i, [2, 4, 6, 8])
+            o = ops.run_op(ctx, ('PP', 1, pid), symbolic=True)
+            ctx.me.data_to_send()
+            if o.exc is not None:
+                note('error-on-push')
+                return
+        pre = ctx.obs.clone()
+        o2 = ops.run_op(ctx, ('CONT', 3), symbolic=True)
+        note(o2.cls[0])
+        check(o2.exc is not None, 'naked-continuation-accepted', None)
+        if o2.exc is not None:
+            goaway_rule(pre, o2, ctx, 'after-refused-push')
+    return h
+
+
 SHAPES = {
     'open': [('HEADERS', 'req', False)],
     'hcr': [('HEADERS', 'req', True)],
@@ -367,6 +394,8 @@ def shards(tier, seed):
     out = F.standard_shards(tier, seed, judge, alpha_filter=lambda o: o[0].isupper(),
                             closure=False)
     out.append(Shard('closed_stream_memory/server', h_closed_stream_memory()))
+    out.append(Shard('goaway_after_refused_push/client', h_goaway_after_refused_push(),
+                     expect=['conn_error']))
     for client in (True, False):
         out.append(Shard('error_after_graceful_close/%s' % ('client' if client else 'server'),
                          h_error_after_graceful_close(client)))
